@@ -113,3 +113,43 @@ class EchoRequest:
 
     def tag_only_message(self):
         return b""
+
+
+# ---- replies of the assumed target (DESIGN 2.2): sessions and connections
+def register_reply(session, status=0):
+    """RegisterSession reply: the granted session handle in the header"""
+    from spec.cip_codec import le_uint
+    return b"\x65\x00\x04\x00" + le_uint(session, 4) + le_uint(status, 4) + bytes(8) + bytes(4) + b"\x01\x00\x00\x00"
+
+
+def forward_open_reply(large, status, cid=b"\x11\x22\x33\x44"):
+    """Forward Open reply through UCMM: on success the O->T connection id leads the reply data"""
+    from spec.msgrouter import unconnected_reply
+    return unconnected_reply(0x5B if large else 0x54, status, cid + bytes(22) if status == 0 else b"")
+
+
+def forward_close_reply(status=0):
+    from spec.msgrouter import unconnected_reply
+    return unconnected_reply(0x4E, status, bytes(10) if status == 0 else b"")
+
+
+def frame_kinds(frames):
+    """what each sent frame is: 'register', 'unregister', 'fo-large', 'fo-standard', 'fclose', 'connected', 'ucmm', 'list-identity'"""
+    from spec.encap import try_parse_frame
+    out = []
+    for f in frames:
+        p = try_parse_frame(f)
+        if p is None:
+            out.append("malformed")
+        elif p[0] == 0x65:
+            out.append("register")
+        elif p[0] == 0x66:
+            out.append("unregister")
+        elif p[0] == 0x63:
+            out.append("list-identity")
+        elif p[0] == 0x70:
+            out.append("connected")
+        else:
+            svc = p[3][1][0] if len(p[3][1]) > 0 else -1
+            out.append({0x5B: "fo-large", 0x54: "fo-standard", 0x4E: "fclose"}.get(svc, "ucmm"))
+    return out
